@@ -424,7 +424,7 @@ def genInstruction (tf : TypeEnv) (ctx : Ctx) (d : Data) : Xml → Except GenErr
       -- `_generate_break`
       if !ctx.chunked then .error "break instruction outside chunked reading"
       else .ok ({ ctx with reachedOptional := false, reachedDummy := false },
-                { d with ser := d.ser ++ [.addBreak], de := d.de ++ [.nextChunk] })
+                { d with rmoAssigned := false, ser := d.ser ++ [.addBreak], de := d.de ++ [.nextChunk] })
     else .ok (ctx, d)
 
 /-- a body: `onlyInstr` = `get_instructions(...)` filtering (struct / packet / case bodies);
